@@ -304,6 +304,12 @@ def run_step(seed=0, tier="quick"):
             finally:
                 shim.TRACERS.remove(tr)
             s5 = _snap(flat)
+            for ov in tr.overlaps:
+                if not (ov["identical"] and ov["other_read_at_centre_only"]):
+                    res.update(ok=False, detail=f"call site passes overlapping memory unsafely: {ov}",
+                               failing_input={"oracle": "callsite_alias", **ov})
+                    return res
+            res["aliasing_calls"] = res.get("aliasing_calls", 0) + len(tr.overlaps)
             label = f"ns2d[{real_t.__name__},forcing={forcing},free_stream={fs},w={w},{ny}x{nx}]"
             if sim.time != t0 + dt:
                 res.update(ok=False, detail=f"{label}: simulator time {sim.time!r} != {t0!r} + {dt!r}",
